@@ -1,6 +1,7 @@
 package main
 
 import (
+	"crypto/sha256"
 	"flag"
 	"fmt"
 	"os"
@@ -187,6 +188,22 @@ func init() {
 		sort.Strings(ks)
 		for _, k := range ks {
 			fmt.Printf("%s\t%s\n", out[k], k)
+		}
+	}
+}
+
+func init() {
+	// hashes: name and sha256 of every generated query (determinism check: two runs must print the same)
+	extraCmds["hashes"] = func(args []string) {
+		w, err := LoadWorld("/repo", []string{"/verif/spec/extern"})
+		if err != nil {
+			panic(err)
+		}
+		w.computeModsets()
+		_, obls := genAll(w, nil)
+		for i, o := range obls {
+			h := sha256.Sum256([]byte(w.query(o, false)))
+			fmt.Printf("%d %s %x\n", i, o.Name, h[:8])
 		}
 	}
 }
